@@ -337,3 +337,81 @@ func modelDelete(c *ref.Value, del map[int]bool) {
 	}
 	c.Keys, c.Vals = ks, vs
 }
+
+// locateScoped navigates so that the final iterator's scope is exactly one
+// value: AdvanceIter inside arrays, NextElementBytes (or FindKey when the key
+// is the first of its name and find is set) inside objects.
+func locateScoped(pj *simdjson.ParsedJson, l Loc, find bool, roots []*ref.Value) (simdjson.Iter, error) {
+	it := pj.Iter()
+	var cur simdjson.Iter
+	for r := 0; ; r++ {
+		t, err := it.AdvanceIter(&cur)
+		if err != nil {
+			return it, err
+		}
+		if t != simdjson.TypeRoot {
+			return it, fmt.Errorf("locateScoped: top-level type %v", t)
+		}
+		if r == l.Root {
+			break
+		}
+	}
+	cur.AdvanceInto()
+	mv := roots[l.Root]
+	for _, idx := range l.Path {
+		switch cur.Type() {
+		case simdjson.TypeArray:
+			a, err := cur.Array(nil)
+			if err != nil {
+				return cur, err
+			}
+			ai := a.Iter()
+			var e simdjson.Iter
+			for k := 0; k <= idx; k++ {
+				t, err := ai.AdvanceIter(&e)
+				if err != nil {
+					return cur, err
+				}
+				if t == simdjson.TypeNone {
+					return cur, fmt.Errorf("locateScoped: array ended at %d, want %d", k, idx)
+				}
+			}
+			cur = e
+			mv = mv.A[idx]
+		case simdjson.TypeObject:
+			o, err := cur.Object(nil)
+			if err != nil {
+				return cur, err
+			}
+			useFind := find
+			for k := 0; k < idx && useFind; k++ {
+				if string(mv.Keys[k]) == string(mv.Keys[idx]) {
+					useFind = false
+				}
+			}
+			if useFind {
+				e := o.FindKey(string(mv.Keys[idx]), nil)
+				if e == nil {
+					return cur, fmt.Errorf("locateScoped: FindKey(%q) = nil", mv.Keys[idx])
+				}
+				cur = e.Iter
+			} else {
+				var e simdjson.Iter
+				for k := 0; k <= idx; k++ {
+					_, t, err := o.NextElementBytes(&e)
+					if err != nil {
+						return cur, err
+					}
+					if t == simdjson.TypeNone {
+						return cur, fmt.Errorf("locateScoped: object ended at %d, want %d", k, idx)
+					}
+				}
+				cur = e
+			}
+			mv = mv.Vals[idx]
+		default:
+			return cur, fmt.Errorf("locateScoped: path enters %v", cur.Type())
+		}
+	}
+	return cur, nil
+}
